@@ -19,7 +19,7 @@ REQUIRED_THEOREMS = ['weekday_candidates', 'monthday_candidates_partial', 'month
                      'feb29_candidates_leap_reference_partial', 'feb29_fails_with_time_of_day',
                      'feb29_fails_next_to_century']
 RULE = ('unit: generate_dates over all 366 (month, day) x boundary reference days (month ends/starts, leap days, year '
-        'boundaries, ISO week transitions, all weekdays; thorough: + every day of 1996-2024 and of 2087-2090) x times '
+        'boundaries, ISO week transitions, all weekdays; thorough: + every 7th day of 1996-2024 and every 2nd of 2087-2090) x times '
         '{00:00:00, 14:30:00, 23:59:59}, also with an explicit year and invalid days; bare weekday branch over every day '
         'of 1950..2090 x all spellings of the culture map; pipeline: month-day layouts (`may 10`, `10 may`, `may 10th`, '
         '`5/10`, `the 10th of may`, 3-letter months) and weekday names x boundary-first references incl. stated day == '
@@ -277,7 +277,7 @@ def correspond(ctx):
     r = ctx.rng('unit')
     gen_days = bdays if ctx.thorough else r.sample(bdays, 260)
     if ctx.thorough:
-        gen_days = gen_days + calcorr.all_days(1996, 2024)[::3] + calcorr.all_days(2087, 2090)
+        gen_days = gen_days + calcorr.all_days(1996, 2024)[::7] + calcorr.all_days(2087, 2090)[::2]
     unit_generate_dates(ctx, DateUtils, gen_days)
     unit_bare_weekday(ctx, calcorr.all_days())
     pipeline(ctx)
